@@ -243,8 +243,7 @@ def classesOf (c : QCircuit Float) : List String :=
       | .cond (_ :: _) _ g _ => gateAny (fun n _ => multiStmt n) g | _ => false) then ["condition_first_statement_only"] else []) ++
   (if c.ops.any (fun o => match o with
       | .measure _ _ b | .measureAll _ b => b != .Z | _ => false) then ["basis_measurement_not_rotated_back"] else []) ++
-  (if circAny c (fun _ ps => ps.any isRef) then ["reference_parameter_by_name"] else []) ++
-  (if circAny c (fun n _ => n == "CU3") then ["cu3_relative_phase"] else [])
+  (if circAny c (fun _ ps => ps.any isRef) then ["reference_parameter_by_name"] else [])
 
 /-- operand lists the simulator itself rejects or mis-executes (D10/D11): the circuit has no semantics to
 preserve -/
